@@ -80,7 +80,7 @@ def check_consistency_x(case, rec):
 
 
 LEFT = ['', ' ', '\t', 'foo ', '<div>', '<p class="a">', '</b>', '<br/>', '<a href=x>', '<img src=a.png>', '<div data-a=1>', 'héllo ', 'x = ', '{ ', 'return ', '<ul>\t', '<a href="#" title=\'t\'>',
-        '<input disabled>', '<x-y a:b=c-d>', '<a onclick=go()>', '<div data={x}>', '<li class=item[1]>', '<p id=main title=f(1)>', '<a title="x\\"y">', "<p data-x='it\\'s'>"]
+        '<input disabled>', '<x-y a:b=c-d>', '<img alt="it\'s"/>', '<a onclick="go(\'x\')" disabled>', '<input value=\'say "hi"\' name=q>', '<a onclick=go()>', '<div data={x}>', '<li class=item[1]>', '<p id=main title=f(1)>', '<a title="x\\"y">', "<p data-x='it\\'s'>"]
 RIGHT = ['', ' bar', '<', '</p>', ' ', '</div> text']
 CSS_LEFT = ['', ' ', '\t', '{ ', 'color: red; ', 'a {\t', '} ']
 CSS_RIGHT = ['', ' ', ';', '}', ' }']
